@@ -183,7 +183,10 @@ function runShard(info, thorough) {
     const seeds = casesOf(false).filter((c, i) => i % info.of === info.shard && Object.keys(c.files).length === 0).slice(0, thorough ? 200 : 40).map((c, i) => T.print(c.main, { attrSep: i % 2 ? '\n  ' : '\r\n  ', newlineBetweenNodes: true }).text).filter((t) => t.length < 120)
     const muts = []
     const SIGMA = ['<', '>', '"', "'", '{', '}', '/', '=', '&', '\n', '\r\n', '\r', 'é', '😀', '{{', '}}', '</', '<!--']
-    for (const t of seeds) {
+    // the same templates on ONE line behind a byte order mark (3 bytes, 1 UTF-16 unit, skipped by the parser but counted in positions):
+    // every diagnostic then lies on the line whose byte and UTF-16 offsets differ from the start
+    const bomSeeds = casesOf(false).filter((c, i) => i % info.of === info.shard && Object.keys(c.files).length === 0).slice(0, thorough ? 100 : 20).map((c) => '\uFEFF' + T.print(c.main).text).filter((t) => t.length < 100)
+    for (const t of [...seeds, ...bomSeeds]) {
       const chars = Array.from(t)
       for (let i = 0; i <= chars.length; i++) {
         muts.push(chars.slice(0, i).join(''))
